@@ -50,4 +50,12 @@ def nextWord (key : Array UInt8) (pos : Nat) : UInt32 × Nat :=
   let (b3, j) := nextByte key j
   (((((b0.toUInt32 <<< 8) ||| b1.toUInt32) <<< 8 ||| b2.toUInt32) <<< 8) ||| b3.toUInt32, j)
 
+/-- byte `p` of the key repeated cyclically -/
+def cyc (key : Array UInt8) (p : Nat) : UInt8 := key[p % key.size]!
+
+/-- word `t` of the cyclic key stream: bytes 4t … 4t+3 of the repeated key, big-endian (Horner form) -/
+def streamWord (key : Array UInt8) (t : Nat) : UInt32 :=
+  ((((cyc key (4*t)).toUInt32 <<< 8) ||| (cyc key (4*t+1)).toUInt32) <<< 8 ||| (cyc key (4*t+2)).toUInt32) <<< 8
+    ||| (cyc key (4*t+3)).toUInt32
+
 end XC.C12
